@@ -1,15 +1,15 @@
 // instr: static audit of package-level state of /repo + generation of a build overlay with scheduling points.
 //
-//   instr <repo-dir> <out-dir>
+//	instr <repo-dir> <out-dir>
 //
-// 1. lists every package-level variable of the non-test files selected by the default build tags;
-// 2. classifies a variable as *mutable after init* if, outside func init(), it is assigned (also through an index
-//    or field), inc/dec-ed, range-assigned, has its address taken, is the destination of copy/append, or is the
-//    receiver of a method call (conservative: misclassification only adds scheduling points);
-// 3. writes <out>/report.json (all variables, the mutable ones with the sites) and, if there are mutable ones,
-//    rewritten copies of the files that access them with `verifPoint("<file>:<func>:<var>")` inserted before each
-//    statement that touches one, plus <out>/verif_hook_gen.go and <out>/overlay.json for `go build -overlay`.
-//    Without mutable variables no overlay is written (overlay.json is `{"Replace":{}}`).
+//  1. lists every package-level variable of the non-test files selected by the default build tags;
+//  2. classifies a variable as *mutable after init* if, outside func init(), it is assigned (also through an index
+//     or field), inc/dec-ed, range-assigned, has its address taken, is the destination of copy/append, or is the
+//     receiver of a method call (conservative: misclassification only adds scheduling points);
+//  3. writes <out>/report.json (all variables, the mutable ones with the sites) and, if there are mutable ones,
+//     rewritten copies of the files that access them with `verifPoint("<file>:<func>:<var>")` inserted before each
+//     statement that touches one, plus <out>/verif_hook_gen.go and <out>/overlay.json for `go build -overlay`.
+//     Without mutable variables no overlay is written (overlay.json is `{"Replace":{}}`).
 package main
 
 import (
